@@ -1243,8 +1243,11 @@ func (in *Interp) rangeIter(fr *frame, x *ssa.Range) Value {
 	case Str:
 		return &RangeIter{Str: &a}
 	case *Map:
-		if fr.fn.Pkg != nil && strings.HasPrefix(fr.fn.Pkg.Pkg.Path(), in.P.modPath) {
+		if fr.fn.Pkg != nil && strings.HasPrefix(fr.fn.Pkg.Pkg.Path(), in.P.modPath) && !strings.Contains(fr.fn.Pkg.Pkg.Path(), "/zz") {
 			in.note("range over map in " + fr.fn.String())
+			if in.run != nil {
+				in.run.nondet(in, "range over map in "+fr.fn.String())
+			}
 		}
 		keys := make([]mapEntry, len(a.Ents))
 		copy(keys, a.Ents)
